@@ -285,6 +285,7 @@ func ruleCanonicalVote(c *Ctx) {
 func init() {
 	register("C07", "R1", "K1+K11", "every commit verifier tallies only verified for-block signatures of the slot's validator, with its preconditions, and accepts only on a strict threshold", 26, ruleCommitTally)
 	register("C07", "R5", "K5+K1", "commit construction agrees with commit verification: a vote becomes a for-block signature of the commit only if its full block id (hash and part-set header) equals the commit's", 4, ruleMakeCommit)
+	register("C07", "R6", "K3+K10", "the total a threshold is taken from is always recomputed from the members (never taken from the wire), and the trust-level product is overflow-checked by division", 6, ruleTotalPower)
 	register("C07", "R4", "K4", "canonical sign bytes bind type, height, round, block id, timestamp and chain id; nil/absent signatures never sign the commit's block id", 14, ruleCanonicalVote)
 	// agreement (C01) rests on the same commit verification: block sync and the light client decide through it
 	register("C01", "R8", "K1+K11", "commit verification used by block sync / light clients: tally and strict threshold (same rule as C07.R1)", 26, ruleCommitTally)
@@ -366,4 +367,91 @@ func ruleMakeCommit(c *Ctx) {
 	for _, call := range w.callsTo(f, "types#NewCommit") {
 		c.guards(f, call, fk+" :: build commit", 0, guardRe("a +2/3 majority exists", `^nonnil\(voteSet\.maj23\)$`))
 	}
+}
+
+// ruleTotalPower: every verifier derives its threshold from ValidatorSet.TotalVotingPower(), a cached field.
+// The cache may only ever hold 0 (= not computed), the sum over the members, or a copy of another set's cache
+// (Copy): a total decoded from a peer is not covered by the set's hash. The trust-level product
+// total*numerator must be refused when it does not fit 64 bits, decided by dividing, not by inspecting the
+// wrapped product.
+func ruleTotalPower(c *Ctx) {
+	w := c.W
+	n := 0
+	for _, fs := range w.fieldStores("types", "ValidatorSet", "totalVotingPower") {
+		n++
+		v := w.expr(fs.Store.Val)
+		fk := funcKey(fs.Fn)
+		ok := false
+		switch {
+		case v == "0":
+			ok = true
+		case strings.HasSuffix(fk, ".updateTotalVotingPower") && strings.Contains(v, "safeAddClip(") && strings.Contains(v, ".VotingPower"):
+			ok = true
+		case strings.HasSuffix(v, ".totalVotingPower") && strings.HasSuffix(fk, ".Copy"):
+			ok = true
+		}
+		c.Check(ok, fk+" :: totalVotingPower = "+trunc(v, 60), w.ipos(fs.Store), "0, the sum over the members, or a copy of an in-memory set's cache", "the cached total is set from "+v+": thresholds of every commit verifier are fractions of this value, and a total supplied from outside is not covered by the set hash")
+	}
+	// composite literals of ValidatorSet that set the field
+	for _, f := range w.FuncsInPkg("types") {
+		for _, b := range f.Blocks {
+			for _, in := range b.Instrs {
+				st, ok := in.(*ssa.Store)
+				if !ok {
+					continue
+				}
+				fa, ok := st.Addr.(*ssa.FieldAddr)
+				if !ok || !isFieldOf(fa, "types", "ValidatorSet", "totalVotingPower") {
+					continue
+				}
+				_ = fa
+			}
+		}
+	}
+	c.Check(n >= 2, "types.ValidatorSet.totalVotingPower writers found", "-", fmt.Sprintf("%d", n), fmt.Sprintf("only %d writers", n))
+	if f := c.fn("types", "ValidatorSet.updateTotalVotingPower"); f != nil {
+		// the sum runs over every member
+		ok := false
+		for _, ea := range condEdges(f) {
+			if guardCmp("all", fwdIdx, "<", `len\(vals\.Validators\)`).Match(w, f, ea.A) {
+				ok = true
+			}
+		}
+		c.Check(ok, funcKey(f)+" sums over every member", w.pos(f.Pos()), "i < len(Validators)", "the total is not summed over all members")
+	}
+	if f := c.fn("types", "ValidatorSet.TotalVotingPower"); f != nil {
+		calls := w.callsTo(f, "types#ValidatorSet.updateTotalVotingPower")
+		c.Check(len(calls) == 1, funcKey(f)+" recomputes when the cache is empty", w.pos(f.Pos()), "updateTotalVotingPower()", "TotalVotingPower no longer recomputes")
+		for _, call := range calls {
+			c.guards(f, call, funcKey(f)+" :: recompute", 0, guardCmp("cache empty", `vals\.totalVotingPower`, "==", "0"))
+		}
+	}
+	if f := c.fn("types", "ValidatorSetFromProto"); f != nil {
+		calls := w.callsTo(f, "types#ValidatorSet.TotalVotingPower")
+		c.Check(len(calls) >= 1, funcKey(f)+" recomputes the total of a decoded set", w.pos(f.Pos()), "TotalVotingPower() on the fresh set", "a decoded set's total is not recomputed")
+	}
+	if f := c.fn("types", "safeMul"); f != nil {
+		fk := funcKey(f)
+		byDivision := guardAny("the product fits: |a| <= MaxInt64/|b| (or a == (a*b)/b)",
+			guardCmp("div", `phi\(-a\|a\)`, "<=", `\(9223372036854775807 / phi\(-b\|b\)\)`),
+			guardCmp("back", `\(\(a \* b\) / b\)`, "==", "a"))
+		for _, r := range returnsOf(f) {
+			ret := r.(*ssa.Return)
+			if b, isC := boolConst(ret.Results[1]); isC && !b {
+				if v := w.arith(ret.Results[0]); v != "0" {
+					c.Check(v == "(a * b)", fk+" :: returns the product", w.ipos(ret), v, "returns "+v)
+					c.guards(f, ret, fk+" :: report no overflow", 0, byDivision)
+				}
+			} else if !isC {
+				c.Fail(fk+" :: overflow flag is decided by a branch", w.ipos(ret), "overflow flag is computed as "+w.expr(ret.Results[1]))
+			}
+		}
+	}
+}
+
+func trunc(s string, n int) string {
+	if len(s) > n {
+		return s[:n] + "…"
+	}
+	return s
 }
